@@ -1,5 +1,5 @@
 package main
 
-func genWiring()      {}
+
 func genLockFacts()   {}
 func genMetricTable() {}
